@@ -27,7 +27,7 @@ m = {
     "not_applicable": NOT_APPLICABLE + [{"property_id": json.loads(l)["id"], "reason": "check not built yet (work in progress; see DESIGN.md section 6 for the plan)"}
                        for l in open(os.path.join(os.path.dirname(os.path.abspath(__file__)), "properties.jsonl"))
                        if json.loads(l)["id"] not in CHECKS and json.loads(l)["id"] not in [n["property_id"] for n in NOT_APPLICABLE]],
-    "notes": "All checks share one driver: ./run_check <id> <quick|thorough>. Exit 0 = held (KNOWN-FINDING lines allowed), 1 = VIOLATION line(s) with a minimised replay file, 2 = harness/build/nondeterminism error. Replay: python3 replay.py <file> [--trace] (rebuilds the right binary first). Known findings and the record of repaired defects: known_findings.txt (read only, never written at run time; replays in findings/). Sensitivity suite: selftest/run_all.sh over selftest/mutants (reverse patches of the fix: commits) and seeded/ (78 seeded changes with demos and meta.json); results in selftest/RESULTS.md.",
+    "notes": "All checks share one driver: ./run_check <id> <quick|thorough>. Exit 0 = held (KNOWN-FINDING lines allowed), 1 = VIOLATION line(s) with a minimised replay file, 2 = harness/build/nondeterminism error. Replay: python3 replay.py <file> [--trace] (rebuilds the right binary first). Known findings and the record of repaired defects: known_findings.txt (read only, never written at run time; replays in findings/). Sensitivity suite: selftest/run_all.sh over selftest/mutants (reverse patches of the fix: commits) and seeded/ (79 seeded changes with demos and meta.json); results in selftest/RESULTS.md.",
 }
 for pid in sorted(CHECKS):
     c = CHECKS[pid]
